@@ -65,12 +65,12 @@ package upstream
 // The two dial functions of a plain-DNS upstream (C17, C18): the UDP transport and its TCP
 // fallback dial the SAME address (the one computed by parseDialAddr / joinPort from the configured
 // address), each exactly once per call, over its own network.
-//@ func NewUpstream$4 [C17, C18]
+//@ func NewUpstream$dialUdpPipeline [C17, C18]
 //@   requires dialer != nil
 //@   modifies *
 //@   ensures calls(netDial) == 1 && arg(netDial, 0, 0) == dialer && arg(netDial, 0, 2) == "udp" && arg(netDial, 0, 3) == dialAddr
 //@   ensures ret(netDial, 0, 1) != nil ==> result_1 != nil
-//@ func NewUpstream$5 [C17, C18]
+//@ func NewUpstream$dialTcpNetConn [C17, C18]
 //@   requires dialer != nil
 //@   modifies *
 //@   ensures calls(netDial) == 1 && arg(netDial, 0, 0) == dialer && arg(netDial, 0, 2) == "tcp" && arg(netDial, 0, 3) == dialAddr
@@ -84,7 +84,7 @@ package upstream
 // (TCP, TLS, HTTPS) parse the configured address once with THEIR default port, and a bootstrap
 // resolver, if one is made, is given exactly the parsed host and port (and this upstream's own
 // bootstrap server and IP version) — never the default port in place of a configured one.
-//@ func NewUpstream$1 [C18]
+//@ func NewUpstream$newUdpAddrResolveFunc [C18]
 //@   modifies *
 //@   ensures calls(parseDialAddr) == 1 && arg(parseDialAddr, 0, 0) == old(addrUrlHost) && arg(parseDialAddr, 0, 1) == old(opt.DialAddr) && arg(parseDialAddr, 0, 2) == defaultPort
 //@   ensures ret(parseDialAddr, 0, 2) != nil ==> result_1 != nil && calls(bootstrapNew) == 0
@@ -92,7 +92,7 @@ package upstream
 //@   ensures calls(bootstrapNew) == 1 ==> arg(bootstrapNew, 0, 0) == ret(parseDialAddr, 0, 0) && arg(bootstrapNew, 0, 1) == ret(parseDialAddr, 0, 1) && arg(bootstrapNew, 0, 2) == old(bootstrapAp) && arg(bootstrapNew, 0, 3) == old(opt.BootstrapVer)
 //@   ensures calls(bootstrapNew) == 1 && ret(bootstrapNew, 0, 1) != nil ==> result_1 != nil
 //@   ensures calls(joinPort) <= 1 && (calls(joinPort) == 1 ==> arg(joinPort, 0, 0) == ret(parseDialAddr, 0, 0) && arg(joinPort, 0, 1) == ret(parseDialAddr, 0, 1))
-//@ func NewUpstream$2 [C18]
+//@ func NewUpstream$newTcpDialer [C18]
 //@   modifies *
 //@   ensures calls(parseDialAddr) == 1 && arg(parseDialAddr, 0, 0) == old(addrUrlHost) && arg(parseDialAddr, 0, 1) == old(opt.DialAddr) && arg(parseDialAddr, 0, 2) == defaultPort
 //@   ensures ret(parseDialAddr, 0, 2) != nil ==> result_1 != nil && calls(bootstrapNew) == 0
@@ -105,11 +105,11 @@ package upstream
 // The DoT dial function (C07): the TCP connection it opened is either handed to the caller (as a
 // TLS connection, after a successful handshake) or closed — a failed handshake closes it before
 // the error is returned; nothing is closed on success.
-//@ func paramfn:NewUpstream$8.tcpDialer
+//@ func paramfn:NewUpstream$dialNetConn#2.tcpDialer
 //@   log tcpDial
 //@   modifies *
 //@   ensures (result_0 != nil) != (result_1 != nil)
-//@ func NewUpstream$8 [C07]
+//@ func NewUpstream$dialNetConn#2 [C07]
 //@   modifies *
 //@   ensures calls(tcpDial) == 1
 //@   ensures ret(tcpDial, 0, 1) != nil ==> result_1 != nil && result_0 == nil && calls(tlsClient) == 0
@@ -120,21 +120,21 @@ package upstream
 // The pipelined TCP / DoT connection makers (C09): every connection is created with the SAME limit
 // the transport uses while the connection is still dialing (pipelineConcurrentLimit = 64), with
 // TCP framing — so queries queued during the dial are not refused once the dial succeeds.
-//@ func paramfn:NewUpstream$7.dialNetConn
+//@ func paramfn:NewUpstream$dialDnsConn#1.dialNetConn
 //@   log dialNetConn
 //@   modifies *
 //@   ensures (result_0 != nil) != (result_1 != nil)
-//@ func NewUpstream$7 [C09]
+//@ func NewUpstream$dialDnsConn#1 [C09]
 //@   captured to.MaxConcurrentQuery == 64 && to.WithLengthHeader
 //@   modifies *
 //@   ensures calls(dialNetConn) == 1
 //@   ensures ret(dialNetConn, 0, 1) != nil ==> result_1 != nil && calls(NewDnsConn) == 0
 //@   ensures ret(dialNetConn, 0, 1) == nil ==> result_1 == nil && calls(NewDnsConn) == 1 && arg(NewDnsConn, 0, 0).MaxConcurrentQuery == 64 && arg(NewDnsConn, 0, 0).WithLengthHeader && arg(NewDnsConn, 0, 1) == ret(dialNetConn, 0, 0)
-//@ func paramfn:NewUpstream$9.dialNetConn
+//@ func paramfn:NewUpstream$dialDnsConn#2.dialNetConn
 //@   log dialNetConn
 //@   modifies *
 //@   ensures (result_0 != nil) != (result_1 != nil)
-//@ func NewUpstream$9 [C09]
+//@ func NewUpstream$dialDnsConn#2 [C09]
 //@   captured to.MaxConcurrentQuery == 64 && to.WithLengthHeader
 //@   modifies *
 //@   ensures calls(dialNetConn) == 1
